@@ -160,7 +160,18 @@ def coq_check(prop_file: str, generators: typing.Sequence[str], timeout: int = 9
             err = p.stdout[-3000:]
             res.error_text = err
             return res
-        # capture assumptions (always, even when make found the .vo up to date)
+        # capture assumptions (always, even when make found the .vo up to date).  When make has just compiled the property
+        # file (it is the last target: it depends on everything else) its output is the tail of make's output: do not
+        # compile it a second time.
+        marker = 'COQC ' + rel
+        n_pa = len(re.findall(r'^Print Assumptions\s+(\w+)\.', thm_src, flags=re.M))
+        tail = p.stdout[p.stdout.rfind(marker) + len(marker):] if marker in p.stdout else ''
+        if tail and len(re.findall(r'(?m)^(?:Closed under the global context|Axioms:)', tail)) == n_pa:
+            res.assumptions = _parse_assumptions(thm_src, tail)
+            if not res.translators_ok:
+                res.ok = False
+                res.error_text = '; '.join(res.translator_msgs)
+            return res
         q = run(['coqc', '-Q', 'theories', 'Verif', '-w', '-notation-overridden', rel], cwd=COQ, timeout=timeout)
         if q.returncode != 0:
             res.ok = False
